@@ -4,17 +4,18 @@ COLL_INVS = ['NoViolation', 'QueueMatchesFlags', 'FreeListSound', 'RemIsHeld', '
 
 def base(kind, cap0, ninit, nc, budget, maxpolls, maxitems=1, maxwakes=1, front=False, perpetual=False, fix=False, nw=2):
     return {'Kind': kind, 'Cap0': cap0, 'NInit': ninit, 'NC': nc, 'Budget': budget, 'NW': nw, 'MaxPolls': maxpolls,
-            'MaxItems': maxitems, 'MaxWakes': maxwakes, 'GenMode': False, 'CursorFix': fix, 'AllowFront': front,
+            'MaxItems': maxitems, 'MaxWakes': maxwakes, 'GenMode': False, 'CursorFix': True, 'AllowFront': front,
             'Mut': 'none', 'Perpetual': perpetual, 'WaitMul': 1, 'WaitAdd': 2}
 
 # exhaustive model-checking configurations of Coll.tla (small constants; see DESIGN.md section 4)
 MC_BASE = {
     'fub':      base('fub', 2, 0, 3, 2, 2, maxwakes=2),
     'fub_b1':   base('fub', 2, 0, 3, 1, 2, maxwakes=2),          # budget 1: "more ready than the budget" with 2 children
-    'fub_init': base('fub', 2, 2, 3, 2, 2, maxwakes=2),          # from_iter / join_all initial state
+    'fub_init': base('fub', 2, 2, 3, 2, 2, maxwakes=2),          # from_iter initial state
     'fub_c3':   base('fub', 3, 0, 4, 2, 2, maxwakes=1),          # thorough
     'fub_perp': base('fub', 2, 0, 3, 2, 2, maxwakes=1, perpetual=True),   # perpetual self-wakers: starvation lassos
-    'fu':       base('fu', 1, 0, 4, 2, 2),                        # groups of capacity 1, 2, 4
+    'fu':       base('fu', 1, 0, 3, 2, 2),                        # groups of capacity 1, 2
+    'fu4':      base('fu', 1, 0, 4, 2, 2),                        # groups of capacity 1, 2, 4 (thorough)
     'fu_perp':  base('fu', 1, 0, 3, 2, 2, perpetual=True),
     'fob':      base('fob', 2, 0, 3, 2, 2, front=True),
     'fo':       base('fo', 1, 0, 3, 2, 2, front=True),
@@ -22,22 +23,37 @@ MC_BASE = {
     'mb_perp':  base('mb', 2, 2, 2, 2, 2, maxitems=2, perpetual=True),
     'mu':       base('mu', 1, 0, 3, 2, 3),
     'mu_perp':  base('mu', 1, 0, 3, 2, 2, maxitems=2, perpetual=True),
+    'bu':       base('bu', 2, 0, 3, 2, 2),
+    'bo':       base('bo', 2, 0, 3, 2, 2),
+    'tbu':      base('tbu', 2, 0, 3, 2, 2),
+    'tbo':      base('tbo', 2, 0, 3, 2, 2),
+    'fe':       base('fe', 2, 0, 3, 2, 2),
+    'ja':       base('ja', 3, 3, 3, 2, 2),
+    'tja':      base('tja', 3, 3, 3, 2, 2),
 }
 
-def gen_job(kind, basecfg, every_quick, tails=('drain', 'quiet', 'drop'), consts=None):
+def gen_job(name, basecfg, every_quick, tails=('drain', 'quiet', 'drop'), consts=None):
     c = {'Budget': 61}
     c.update(consts or {})
-    return {'name': 'cover_' + kind, 'base': basecfg, 'consts': c, 'mode': 'cover', 'every_quick': every_quick,
+    return {'name': 'cover_' + name, 'base': basecfg, 'consts': c, 'mode': 'cover', 'every_quick': every_quick,
             'every_thorough': 1, 'tails': list(tails)}
 
+# state-cover generators: one TLC behaviour per distinct poll-boundary state of the small model, executed on the real crate
 GEN = {
     'fub': gen_job('fub', 'fub', 4),
-    'fub_init': {**gen_job('fub', 'fub_init', 4), 'name': 'cover_fub_init'},
-    'fu': gen_job('fu', 'fu', 40, consts={'NC': 3}),
+    'fub_init': gen_job('fub_init', 'fub_init', 4),
+    'fu': gen_job('fu', 'fu', 10),
     'fob': gen_job('fob', 'fob', 20),
-    'fo': gen_job('fo', 'fo', 40),
+    'fo': gen_job('fo', 'fo', 60),
     'mb': gen_job('mb', 'mb', 30),
     'mu': gen_job('mu', 'mu', 30),
+    'bu': gen_job('bu', 'bu', 8),
+    'bo': gen_job('bo', 'bo', 8),
+    'tbu': gen_job('tbu', 'tbu', 40),
+    'tbo': gen_job('tbo', 'tbo', 40),
+    'fe': gen_job('fe', 'fe', 8),
+    'ja': gen_job('ja', 'ja', 2, tails=('drain', 'repoll', 'drop')),
+    'tja': gen_job('tja', 'tja', 3, tails=('drain', 'repoll', 'drop')),
 }
 
 def rnd(kind, size='small', profile='mix', nq=300, nt=3000, **kw):
@@ -52,6 +68,9 @@ def mc(name, **kw):
 
 COLL_KINDS = ['fub', 'fu', 'fob', 'fo']
 MERGE_KINDS = ['mb', 'mu']
+ADAPT_KINDS = ['bu', 'bo', 'tbu', 'tbo', 'fe']
+JOIN_KINDS = ['ja', 'tja']
+ALL_KINDS = COLL_KINDS + MERGE_KINDS + ADAPT_KINDS + JOIN_KINDS
 
 DEFAULT_ASSUMPTIONS = [
     'TLC explores the listed small constants exhaustively; larger sizes are reached only by validated traces of the real crate',
@@ -60,19 +79,77 @@ DEFAULT_ASSUMPTIONS = [
 ]
 CRASH_IS_VIOLATION = {'C03', 'C07'}
 
-def coll_suite(kinds, nq=300, nt=3000, real_q=40, real_t=400):
+def suite(kinds, nq=300, nt=3000, real_q=30, real_t=300, profiles=()):
     out = []
     for k in kinds:
         out.append(rnd(k, 'small', 'mix', nq, nt))
-        out.append(rnd(k, 'real', 'mix', real_q, real_t))
+        if real_q: out.append(rnd(k, 'real', 'mix', real_q, real_t))
+        for pr in profiles:
+            out.append(rnd(k, 'real', pr, max(real_q // 2, 8), real_t))
     return out
 
+def mcs(*names, thorough=()):
+    return [mc(n) for n in names] + [mc(n, tier='thorough') for n in thorough]
+def gens(*names):
+    return [GEN[n] for n in names]
+
 PLAN = {
-    'C02': {
-        'mc': [mc('fub'), mc('fub_b1'), mc('fub_init'), mc('fob'), mc('fo'), mc('fu'), mc('fub_c3', tier='thorough')],
-        'gen': [GEN['fub'], GEN['fub_init'], GEN['fu'], GEN['fob'], GEN['fo']],
-        'random': coll_suite(COLL_KINDS),
-    },
+    'C01': {'mc': mcs('fub', 'fub_b1', 'fu', 'mb', 'mu', 'bu', 'ja', thorough=('fub_c3', 'fu4')),
+            'gen': gens('fub', 'fu', 'mb', 'mu', 'bu'),
+            'random': suite(COLL_KINDS + MERGE_KINDS, 200, 2000, 20, 200, profiles=('budget',)) + suite(ADAPT_KINDS + JOIN_KINDS, 150, 1500, 10, 100)},
+    'C02': {'mc': mcs('fub', 'fub_b1', 'fub_init', 'fob', 'fo', 'fu', thorough=('fub_c3', 'fu4')),
+            'gen': gens('fub', 'fub_init', 'fu', 'fob', 'fo'),
+            'random': suite(COLL_KINDS)},
+    'C04': {'mc': mcs('fob', 'fo', 'bo', 'tbo', 'ja', 'tja'),
+            'gen': gens('fob', 'fo', 'bo', 'tbo', 'ja'),
+            'random': suite(['fob', 'fo'], 400, 4000, 40, 400) + suite(['bo', 'tbo', 'ja', 'tja'], 200, 2000, 15, 150)},
+    'C05': {'mc': mcs('fub', 'fub_init', 'mb', 'mu', 'ja'),
+            'gen': gens('fub', 'mb', 'mu', 'ja'),
+            'random': suite(['fub', 'fu', 'mb', 'mu', 'ja', 'bu'], 250, 2500, 20, 200, profiles=('stale',))},
+    'C06': {'mc': mcs('fub', 'fob', 'mb', 'bo', 'ja', 'tja'),
+            'gen': gens('fub', 'fob', 'mb', 'bo', 'ja', 'tja'),
+            'random': suite(ALL_KINDS, 200, 2000, 10, 100)},
+    'C07': {'mc': mcs('ja', 'tja'),
+            'gen': gens('ja', 'tja'),
+            'random': suite(JOIN_KINDS, 600, 6000, 60, 600)},
+    'C08': {'mc': mcs('fub', 'fu', 'mu'),
+            'gen': gens('fub', 'fu', 'mu', 'bu'),
+            'random': suite(COLL_KINDS + MERGE_KINDS, 250, 2500, 30, 300, profiles=('oscillate',)) + suite(['bu', 'bo', 'ja'], 100, 1000, 10, 100)},
+    'C09': {'mc': mcs('bu', 'bo', 'tbu', 'tbo', 'fe'),
+            'gen': gens('bu', 'bo', 'tbu', 'tbo', 'fe'),
+            'random': suite(ADAPT_KINDS, 400, 4000, 40, 400)},
+    'C10': {'mc': mcs('bu', 'bo', 'tbu', 'tbo', 'fe'),
+            'gen': gens('bu', 'bo', 'tbu', 'tbo', 'fe'),
+            'random': suite(ADAPT_KINDS, 400, 4000, 40, 400)},
+    'C11': {'mc': mcs('mb', 'mu'),
+            'gen': gens('mb', 'mu'),
+            'random': suite(MERGE_KINDS, 500, 5000, 60, 600, profiles=('budget',))},
+    'C12': {'mc': mcs('fub', 'fub_b1', 'fu', 'mb', 'mu'),
+            'gen': gens('fub', 'fu', 'mb'),
+            'random': suite(COLL_KINDS + MERGE_KINDS, 250, 2500, 20, 200, profiles=('stale',))},
+    'C13': {'mc': mcs('fub_perp', 'mb_perp', 'fu_perp', 'mu_perp'),
+            'gen': gens('fub', 'mb'),
+            'random': suite(COLL_KINDS + MERGE_KINDS, 150, 1500, 10, 100, profiles=('budget',))
+                      + [rnd(k, 'small', 'starve', 60, 600) for k in COLL_KINDS + MERGE_KINDS]
+                      + [rnd(k, 'real', 'starve', 12, 120) for k in COLL_KINDS + MERGE_KINDS]
+                      + [rnd(k, 'small', 'churn', 30, 300) for k in ['fu', 'fo']]},
+    'C14': {'mc': mcs('fub', 'fub_b1', 'fu', 'mb', 'bu'),
+            'gen': [dict(GEN[n], tails=['quiet']) for n in ('fub', 'fu', 'mb', 'bu')],
+            'random': suite(COLL_KINDS + MERGE_KINDS + ['bu', 'fe'], 200, 2000, 15, 150, profiles=('stale',))},
+    'C15': {'mc': mcs('fub', 'fub_init', 'fob', 'fo', 'fu', 'mb'),
+            'gen': gens('fub', 'fub_init', 'fob', 'fu'),
+            'random': suite(COLL_KINDS + ['mb', 'mu'], 400, 4000, 40, 400)},
+    'C16': {'mc': mcs('bo', 'tbo'),
+            'gen': gens('bo', 'tbo'),
+            'random': suite(['bo', 'tbo'], 500, 5000, 50, 500, profiles=('headofline',)) + [rnd(k, 'small', 'headofline', 100, 1000) for k in ('bo', 'tbo')]},
+    'C17': {'mc': mcs('bu', 'bo', 'tbu', 'tbo', 'fub', 'fo'),
+            'gen': gens('bu', 'bo', 'tbu', 'tbo'),
+            'random': suite(['bu', 'bo', 'tbu', 'tbo'], 400, 4000, 40, 400) + suite(COLL_KINDS + MERGE_KINDS, 100, 1000, 10, 100)},
+    'C18': {'mc': mcs('fub', 'fu', 'mu', 'fo'),
+            'gen': gens('fub', 'bu'),
+            'random': suite(ALL_KINDS, 100, 1000, 10, 100)
+                      + [rnd(k, 'small', 'oscillate', 60, 600) for k in COLL_KINDS + MERGE_KINDS]
+                      + [rnd(k, 'real', 'oscillate', 20, 200) for k in COLL_KINDS + MERGE_KINDS]},
 }
 
 HOOK_COMMITS = ['f17c35b', '748a996', 'e526430', '6de2393']
